@@ -12,7 +12,7 @@ CHECK = {
             "exhausted, entity disabled / deleted, CIDR mismatch, batch, orphan, root, one token per policy and pairs) x ~275 path "
             "forms (trailing / doubled slashes, relative segments, case, escapes, control bytes, mount boundary and prefix-sharing "
             "mounts, namespace by context / header / prefix) x 7 operations through Core.HandleRequest, and x 8 HTTP method forms x "
-            "2 token headers through the in-process HTTP handler. (H) explicit-state BFS over histories of 18 management operations "
+            "2 token headers through the in-process HTTP handler. (H) explicit-state BFS over histories of 19 management operations (incl. a policy PATCH refused for a stale check-and-set value) "
             "(policy write / restrict / delete, 3 revocation entry points, entity disable / enable, identity policy, group "
             "membership, namespace lock / unlock, remount, tune) to depth 3 (quick) / 5 (thorough); the reference state is a pure "
             "model, every transition is replayed on a fresh Core, a 41-request battery runs after every step and is judged in both "
